@@ -13,6 +13,7 @@ use oracle::ast::*;
 use oracle::eval::compare;
 use oracle::json::{J, N};
 use oracle::render::{render, Spelling};
+use oracle::rng::Rng;
 use serde_json::json;
 use std::sync::atomic::{AtomicU8, Ordering};
 
@@ -511,6 +512,65 @@ pub fn run(ctx: &Ctx) -> Result<Evidence, String> {
         });
         acc = Acc::merge(vec![acc, sacc]);
         acc.count("string_family_size", m as u64);
+    }
+    // random number pairs: full-range and near-2^53 integers, floats from random bit patterns,
+    // neighbours (a, a +- 1), (f, next float), (integer, its float image)
+    {
+        let n_pairs = ctx.tier.pick(4000, 4_000_000);
+        let seed = ctx.seed;
+        let racc = par_run(ctx, n_pairs, |i, acc: &mut Acc| {
+            let mut r = Rng::stream(seed, 4_000_000 + i as u64);
+            let num = |r: &mut Rng| -> J {
+                match r.below(7) {
+                    0 => J::int(r.next() as i64),
+                    1 => J::int(9007199254740992i64 - 3 + r.below(7) as i64),
+                    2 => J::int(-(9007199254740992i64 - 3 + r.below(7) as i64)),
+                    3 => J::int(r.below(2001) as i64 - 1000),
+                    4 => {
+                        let f = f64::from_bits(r.next());
+                        if f.is_finite() { J::float(f) } else { J::float(0.5) }
+                    }
+                    5 => J::float((r.below(4001) as f64 - 2000.0) / 8.0),
+                    _ => J::float((r.below(2001) as i64 - 1000) as f64 * 1e300),
+                }
+            };
+            let a = num(&mut r);
+            let b = match r.below(5) {
+                0 => match &a { J::Num(N::Int(x)) => J::int(x.saturating_add(1)), J::Num(N::Float(f)) => J::float(f64::from_bits(f.to_bits().wrapping_add(1))), o => o.clone() },
+                1 => match &a { J::Num(N::Int(x)) => J::float(*x as f64), J::Num(N::Float(f)) if f.fract() == 0.0 && f.abs() < 9.0e18 => J::int(*f as i64), o => o.clone() },
+                2 => a.clone(),
+                _ => num(&mut r),
+            };
+            let fin = |v: &J| matches!(v, J::Num(N::Float(f)) if !f.is_finite());
+            if fin(&a) || fin(&b) {
+                return;
+            }
+            let (va, vb) = (Some(a.clone()), Some(b.clone()));
+            let mixed = matches!((&a, &b), (J::Num(x), J::Num(y)) if x.is_integer_typed() != y.is_integer_typed());
+            let out = |v: &J| matches!(v, J::Num(x) if !x.in_exact_range());
+            if mixed && (out(&a) || out(&b)) {
+                ctx.add_skipped("U2", 1);
+                return;
+            }
+            let doc = Doc::new(&carrier(&va, &vb));
+            for op in CmpOp::ALL {
+                let q = Query::root(vec![Segment::child(Selector::Name("c".into())), Segment::child(Selector::Filter(Or::single(Basic::Cmp { lhs: operand('l', Form::CurMember, &va, 0).unwrap(), op, rhs: operand('r', Form::Nested, &vb, 0).unwrap() })))]);
+                let text = render(&q, &mut Spelling::canonical());
+                let expected = compare(op, va.as_ref(), vb.as_ref());
+                acc.evaluations += 1;
+                match libapi::query_with_path(&text, &doc.value) {
+                    LibOutcome::Ok(ns) if ns.is_empty() != expected => {
+                        acc.count("held", 1);
+                        acc.count("random_number_pairs_held", 1);
+                    }
+                    o => ctx.violate(
+                        &format!("comparison {} {} {} evaluated to {} but RFC 9535 says {}", a.to_text(), op.text(), b.to_text(), o.brief(), expected),
+                        json!({"kind":"query","query": text, "document": serde_json::from_str::<serde_json::Value>(&doc.text()).unwrap_or_default(), "expected_truth": expected}),
+                    ),
+                }
+            }
+        });
+        acc = Acc::merge(vec![acc, racc]);
     }
     let mut ev = Evidence::new("cases = (lhs value, rhs value, operator, operand form pair): all ordered pairs of a value universe (Nothing + every JSON type incl. int/float twins, -0.0, 1e-17, 2^53-1, empty/nested containers, unicode strings) x 6 operators x operand forms (@.m, $.m, nested singular path, array element by index, literal in several number spellings, value(@.m)). Truth observed at the boundary as 'carrier element kept' for L op R and for !(L op R). A second exhaustive family: all ordered pairs of ~90 strings (length classes 1..65, long common prefixes, multi-byte characters at 8/16/32-byte boundaries, NUL, UTF-16 vs scalar order, look-alikes) x 6 operators x 3 form pairs, with the trichotomy law on the observed outcomes. The universe includes float-lattice neighbours, containers differing in a float's last bit, and integers above i64::MAX (open finding KF-C04-integers-beyond-i64, exact effect model). Non-trivial = distinct (type(lhs), type(rhs), op, form pair) cells.");
     ev.set("exhaustive", json!(true));
